@@ -1714,8 +1714,6 @@ def _pure_hoistable(e: ast.AST) -> bool:
         return _pure_hoistable(e.operand)
     if isinstance(e, ast.Call):
         return isinstance(e.func, ast.Name) and e.func.id == "len" and len(e.args) == 1 and not e.keywords and _pure_hoistable(e.args[0])
-    if isinstance(e, ast.Tuple):
-        return all(_pure_hoistable(x) for x in e.elts)
     return False
 
 
